@@ -101,8 +101,8 @@ def c02_batches(tier):
     for be in BACKENDS:
         for var in ("optim", "debug"):
             slow = 1.0 if var == "optim" else 0.4
-            bs.append(B("netlist-swarm-%s-%s" % (be, var), "gates", be, var, (120 if q else 3000) * slow, spec="swarm:32", specpool=8, nkeys=2, mode="netlist",
-                        gates=40, pfault=0.3, stats=0, weight=30 if q else 300))
+            bs.append(B("netlist-swarm-%s-%s" % (be, var), "gates", be, var, (80 if q else 3000) * slow, spec="swarm:24", specpool=6, nkeys=2, mode="netlist",
+                        gates=32 if q else 40, pfault=0.3, stats=0, weight=30 if q else 300))
         bs.append(B("deep-swarm-%s-optim" % be, "gates", be, "optim", 4 if q else 40, spec="swarm:8", specpool=2, nkeys=1, mode="netlist", shape=1,
                     gates=200 if q else 5000, mingates=200 if q else 5000, pfault=0.1, crash=0, stats=0, weight=30 if q else 600, det_count=1))
     for spec in ("P128", "P80"):
@@ -110,11 +110,11 @@ def c02_batches(tier):
         for be, var in confs:
             sp = SPEED[be] * (1 if var == "optim" else 8)
             # statistics batches: binary gates, MUX-heavy netlists, deep chains (depth >= 50), maximal admissible input noise
-            bs.append(B("stat-mixed-%s-%s-%s" % (spec, be, var), "gates", be, var, 260 if q else 900, spec=spec, nkeys=2 if q else 6, mode="netlist", gates=24, mingates=20,
+            bs.append(B("stat-mixed-%s-%s-%s" % (spec, be, var), "gates", be, var, 220 if q else 900, spec=spec, nkeys=2 if q else 6, mode="netlist", gates=24, mingates=20,
                         muxbias=0.6, pfault=0.6, crash=0, stats=1, weight=220 * sp, det_count=1, no_determinism=not q))
-            bs.append(B("stat-fresh-%s-%s-%s" % (spec, be, var), "gates", be, var, 700 if q else 4000, spec=spec, nkeys=2 if q else 6, mode="table", prov=0, dev=0,
+            bs.append(B("stat-fresh-%s-%s-%s" % (spec, be, var), "gates", be, var, 600 if q else 4000, spec=spec, nkeys=2 if q else 6, mode="table", prov=0, dev=0,
                         stats=1, weight=160 * sp, det_count=1, no_determinism=not q))
-            bs.append(B("stat-max-%s-%s-%s" % (spec, be, var), "gates", be, var, 700 if q else 4000, spec=spec, nkeys=2 if q else 6, mode="table", dev=3,
+            bs.append(B("stat-max-%s-%s-%s" % (spec, be, var), "gates", be, var, 600 if q else 4000, spec=spec, nkeys=2 if q else 6, mode="table", dev=3,
                         stats=1, weight=200 * sp, det_count=1, no_determinism=not q))
             bs.append(B("stat-deep-%s-%s-%s" % (spec, be, var), "gates", be, var, 30 if q else 200, spec=spec, nkeys=2 if q else 6, mode="netlist", shape=1, gates=150,
                         mingates=150, pfault=0.0, crash=0, stats=1, weight=200 * sp, det_count=1, no_determinism=not q))
